@@ -30,7 +30,10 @@ Next ==
      \/ Rank(t) >= 2 /\ Do("concatenate_self", <<>>, MergeFirst(t))
      \/ \E ax \in 0..(Rank(t) - 2) : Do("reshape_merge", <<ax>>, MergeAt(t, ax))
      \/ \E ax \in 0..(Rank(t) - 1) :
-           Do("tensordot", <<ax>>, TensorDot(2, t.sh[ax + 1], LAMBDA r, p : CodeU(r, p), t, ax))
+           \* every application contracts with its OWN matrix (codes shifted by the step number): with one matrix used
+           \* twice on the same axis two different summation paths can give the same product of symbols, and a formal sum
+           \* kept as a SET would lose the multiplicity (the assembly code never does that: a matrix meets an axis once)
+           Do("tensordot", <<ax>>, TensorDot(2, t.sh[ax + 1], LAMBDA r, p : CodeU(r, p) + 1000000 * Len(ops), t, ax))
      \/ \E ax \in 0..(Rank(t) - 2) : Do("normmul", <<ax>>, NormMul(t, 1, ax))
      \/ \E ax \in 0..(Rank(t) - 1) : Do("concatenate_pair", <<ax>>, Concat(<<t, Conj(t)>>, ax))
      \/ Do("transpose_rotate", <<>>, Transpose(t, [n \in 1..Rank(t) |-> n % Rank(t)]))
